@@ -36,11 +36,14 @@ def _eff_case(cid, fn, pts, wt, dtype=float, wdiv=1, wshape=None):
     try:
         mask = fn(f, w, True)
         idx = fn(f, w, False)
-    except Exception as e:  # exception on valid input
+        ia = np.asarray(idx); ma = np.asarray(mask)
+        if ia.ndim != 1 or ma.shape != (len(pts),):
+            # documented: a (npt,) boolean mask / a (n_efficient,) integer array
+            raise ValueError("index form has shape %s, mask form has shape %s" % (ia.shape, ma.shape))
+        c = {"id": cid, "kind": "eff", "pts": pts, "wt": wt, "mask": [bool(x) for x in ma], "idx": [int(x) for x in ia]}
+    except Exception as e:  # exception on valid input / malformed result
         return {"id": cid, "kind": "eff", "pts": pts, "wt": wt, "mask": [False] * len(pts), "idx": [],
-                "exc": type(e).__name__}
-    c = {"id": cid, "kind": "eff", "pts": pts, "wt": wt, "mask": [bool(x) for x in mask],
-         "idx": [int(x) for x in idx]}
+                "exc": "%s: %s" % (type(e).__name__, e)}
     if not (np.array_equal(f, f0) and np.array_equal(w, w0)):
         c["mutated_input"] = True
     return c
